@@ -420,6 +420,9 @@ class J1939_22:
                             self.__send_tp_dt(buf['src_address'], buf['dest_address'], buf['session'], package+1, buf['data'][package])
 
                             buf['next_packet_to_send'] += 1
+                            if self._minimum_tp_rts_cts_dt_interval != None:
+                                # the configured minimum interval also applies across a CTS
+                                buf['next_dt_not_before'] = time.time() + self._minimum_tp_rts_cts_dt_interval
                             # send end of message status
                             if (package+1) == buf['num_segments']:
                                 self.__send_tp_eom_status(buf['src_address'], buf['dest_address'], buf['session'], buf['message_size'], buf['num_segments'], buf['pgn'])
@@ -569,7 +572,8 @@ class J1939_22:
             self._snd_buffer[buffer_hash]['next_wait_on_cts'] = self._snd_buffer[buffer_hash]['next_packet_to_send'] + num_segments - 1
 
             self._snd_buffer[buffer_hash]['state'] = self.SendBufferState.SENDING_RTS_CTS
-            self._snd_buffer[buffer_hash]['deadline'] = time.time() # wake up immediately
+            # wake up immediately, but not before the configured minimum interval since the last DT has elapsed
+            self._snd_buffer[buffer_hash]['deadline'] = max(time.time(), self._snd_buffer[buffer_hash].get('next_dt_not_before', 0))
             self.__job_thread_wakeup()
 
         elif control_byte == self.TpControlType.EOM_STATUS:
